@@ -123,6 +123,22 @@ def main(tier, seed, replay=None):
     nrand = 3000 if tier == "quick" else 40000
     for _ in range(nrand):
         progs.append(random_program(rng))
+    # names are compared as written: "w1", "w1 " and " w1" are three different names (unusual, legal) — random programs renamed
+    # into such whitespace twins keep their verdict
+    for _ in range(150 if tier == "quick" else 2000):
+        names, ops = random_program(rng)
+        pool = [701, 801, 901, 702, 802, 902]
+        rng.shuffle(pool)
+        ids = sorted(set(list(names) + [a for o in ops if o[0] == "function" for a in o[1]] + [o[1] for o in ops if o[0] == "partial_deriv"]))
+        ids = [a for a in ids if 0 < a < 500]
+        if len(ids) > len(pool):
+            continue
+        ren = {a: pool[j] for j, a in enumerate(ids)}
+        rn = lambda a: ren.get(a, a)
+        names = [rn(a) for a in names]
+        ops = [(o[0], [rn(a) for a in o[1]]) + tuple(o[2:]) if o[0] == "function" else
+               (o[0], rn(o[1])) + tuple(o[2:]) if o[0] == "partial_deriv" else o for o in ops]
+        progs.append((names, ops))
     cases = []
     for i, (names, ops) in enumerate(progs):
         c = mb.to_harness(names, ops, scalar="f64" if i % 7 else "f32")
